@@ -44,6 +44,17 @@ func (e Elem) Twice() int            { return e.V * 2 }
 func (e Elem) Add(n int) int         { return e.V + n }
 func (e Elem) Label(p string) string { return p + e.Name }
 func (e Elem) Fail() int             { panic("elem fail") }
+
+// Mask reports which arguments are nil (bit i: argument i), plus 8 times V.
+func (e Elem) Mask(a, b, c interface{}) int {
+	m := 0
+	for i, x := range []interface{}{a, b, c} {
+		if x == nil {
+			m |= 1 << i
+		}
+	}
+	return m + 8*e.V
+}
 func (e Elem) OrV(o *Elem, d int) int {
 	if o != nil {
 		return o.V
